@@ -244,19 +244,38 @@ Fixpoint set_info (ep : N) (v : list sub) (m : list (N * list sub)) : list (N * 
   | (k, w) :: m' => if k =? ep then (ep, v) :: m' else (k, w) :: set_info ep v m'
   end.
 
+(* HandleHeadEvent's housekeeping of subscriptionInfos:
+     for subscriptionEpoch := range s.subscriptionInfos {
+         if subscriptionEpoch+1 < epoch { delete(s.subscriptionInfos, subscriptionEpoch) } }
+   in uint64 arithmetic ([epoch] is the epoch of the head's slot): the information of the head's
+   epoch, of the epoch before it and of every later epoch stays. *)
+Definition stale64 (ep hepoch : N) : bool := wrap64 (ep + 1) <? hepoch.
+Definition prune_infos (hepoch : N) (m : list (N * list sub)) : list (N * list sub) :=
+  filter (fun kv => negb (stale64 (fst kv) hepoch)) m.
+
+(* The same test written with a subtraction (`oldestRetainedEpoch := epoch - 1;
+   subscriptionEpoch < oldestRetainedEpoch`), kept for the refutation theorem: in uint64 the bound
+   of epoch 0 is 2^64-1 and everything goes. *)
+Definition stale64_by_subtraction (ep hepoch : N) : bool := ep <? sub64 hepoch 1.
+
 Inductive op :=
 | OSub (epoch cur : N) (no_accounts duties_fail : bool) (sign_fail : list N) (duties : list duty)
     (* subscribeToBeaconCommittees(epoch, accounts) at current slot [cur]; [sign_fail]: slots whose
        SignSlotSelections call fails *)
-| OAtt (dslot cur : N) (attest_fail : bool) (no_acct : list N) (atts : list att).
+| OAtt (dslot cur : N) (attest_fail : bool) (no_acct : list N) (atts : list att)
     (* AttestAndScheduleAggregate(duty of slot dslot) at current slot [cur]; [atts] is what
        attester.Attest returned; [no_acct]: validators whose account lookup fails or is empty *)
+| OHead (hslot cur : N).
+    (* HandleHeadEvent(head of slot [hslot]) at current slot [cur] (no reorganisation, no fast
+       track, no sync committee verification): a head that is not of the current slot is ignored *)
 
 Inductive out :=
 | OutSub (calls : list (list subscription)) (stored : option (list sub))
     (* the SubmitBeaconCommitteeSubscriptions payloads of this call, and subscriptionInfos[epoch] afterwards *)
-| OutAtt (jobs : list job).
+| OutAtt (jobs : list job)
     (* the scheduler's aggregation jobs afterwards, each with the duty it carries *)
+| OutHead (infos : list (N * list sub)).
+    (* the whole of subscriptionInfos afterwards *)
 
 Definition sign_ok_of (sign_fail : list N) (s : N) : bool := negb (memb N.eqb s sign_fail).
 Definition acct_ok_of (no_acct : list N) (v : N) : bool := negb (memb N.eqb v no_acct).
@@ -286,6 +305,11 @@ Definition step (pr : params) (st : state) (o : op) : state * out :=
                    ({| st_infos := st_infos st; st_jobs := jobs |}, OutAtt jobs)
                end
            end
+  | OHead hslot cur =>
+      if hslot =? cur then
+        let infos := prune_infos (hslot / spe pr) (st_infos st) in
+        ({| st_infos := infos; st_jobs := st_jobs st |}, OutHead infos)
+      else (st, OutHead (st_infos st))
   end.
 
 Fixpoint run (pr : params) (st : state) (ops : list op) : state * list out :=
